@@ -100,6 +100,9 @@ static std::map<int, int> g_logger_regs; // per thread id: registrations made by
 int tl_log(struct aws_logger *, enum aws_log_level, aws_log_subject_t, const char *, ...) {
     Ctx *c = g;
     if (!c || !sim::active()) return AWS_OP_SUCCESS;
+    // a logger may look at the library's thread bookkeeping (e.g. to print the number of managed threads with every line); the query
+    // takes the managed-thread lock, so a library that logs while holding that lock deadlocks against itself
+    (void)aws_thread_get_managed_thread_count();
     auto it = c->by_tid.find(sim::self());
     if (it == c->by_tid.end()) return AWS_OP_SUCCESS; // not a launched thread (or not started yet)
     int id = it->second;
